@@ -426,10 +426,33 @@ func TestC07Slide(t *testing.T) {
 	}
 	idx := -1
 	l, ci := 0, 0
+	coarse := []int{128, 256, 512, 1024, 1536, 2048, 3072, 4000}
+	// inodes longer than a metadata block: a file of thousands of blocks has a block list of more than 8 KiB,
+	// so its inode covers two or three metadata blocks and the inodes behind it start in a later block
+	bigBlocks := []int{1900, 2100, 4200}
+	bi := 0
 	hx.RunEnum(t, "C07", func() (any, bool) {
+		for bi < len(bigBlocks) {
+			nb := bigBlocks[bi]
+			bi++
+			idx++
+			if idx%nshard != shard {
+				continue
+			}
+			c := sqCase{Size: 64 << 20}
+			for i := 0; i < 145; i++ {
+				c.Tree = append(c.Tree, mk.Entry{Path: fmt.Sprintf("a%03d", i), Kind: mk.KFile, Data: mk.Content{Seed: uint32(i + 1), Len: 10 + i%7, Style: 2}})
+			}
+			c.Tree = append(c.Tree, mk.Entry{Path: "big", Kind: mk.KFile, Data: mk.Content{Seed: 77, Len: nb*4096 + 5, Style: 3}})
+			for i := 0; i < 5; i++ {
+				c.Tree = append(c.Tree, mk.Entry{Path: fmt.Sprintf("z%03d", i), Kind: mk.KFile, Data: mk.Content{Seed: uint32(300 + i), Len: 100 + i, Style: 0}})
+			}
+			c.Vars = []sqVariant{{BS: 4096, Opts: mk.SqOpts{Comp: "gzip", Level: 1}, Cache: -1}}
+			return c, true
+		}
 		for {
 			l++
-			if l > maxL {
+			if l > maxL+len(coarse) {
 				l = 1
 				ci++
 			}
@@ -442,7 +465,11 @@ func TestC07Slide(t *testing.T) {
 			}
 			bs := 4096
 			c := sqCase{Size: 8 << 20, Tail: 0}
-			c.Tree = append(c.Tree, mk.Entry{Path: "0-link", Kind: mk.KLink, Target: strings.Repeat("s", l)})
+			tl := l
+			if l > maxL {
+				tl = coarse[l-maxL-1] // coarse shifts: move the boundary across the long inodes
+			}
+			c.Tree = append(c.Tree, mk.Entry{Path: "0-link", Kind: mk.KLink, Target: strings.Repeat("s", tl)})
 			for i := 0; i < 170; i++ {
 				var sz int
 				switch i % 5 {
@@ -459,7 +486,9 @@ func TestC07Slide(t *testing.T) {
 				}
 				c.Tree = append(c.Tree, mk.Entry{Path: fmt.Sprintf("f%03d", i), Kind: mk.KFile, Data: mk.Content{Seed: uint32(i + 1), Len: sz, Style: []int{0, 1, 2}[i%3]}})
 				if i%40 == 7 {
-					c.Tree = append(c.Tree, mk.Entry{Path: fmt.Sprintf("l%03d", i), Kind: mk.KLink, Target: fmt.Sprintf("f%03d", i)})
+					// symlinks with targets of kilobytes: inodes much longer than the sweep, so that the boundary
+					// also cuts an inode near its start, in its middle and near its end
+					c.Tree = append(c.Tree, mk.Entry{Path: fmt.Sprintf("l%03d", i), Kind: mk.KLink, Target: strings.Repeat(string(rune('a'+i%26)), 2500+i*9)})
 				}
 			}
 			o := mk.SqOpts{Comp: comps[ci]}
